@@ -162,6 +162,13 @@ pub struct ObjectStoreMetadataClient {
     catalog_cache: Arc<tokio::sync::RwLock<Option<(MetadataCatalog, Instant)>>>,
     /// Catalog cache TTL duration
     catalog_cache_ttl: Duration,
+    /// Serialises this client's own read-modify-write cycles on the catalog object.
+    /// Concurrent tasks of one process (writer-triggered flushes, the flush timer, a
+    /// compactor's jobs) would otherwise only make each other's conditional writes fail,
+    /// and a task that loses MAX_CAS_RETRIES times in a row gives up although nothing
+    /// is wrong - for the ingester that means a failed flush. Other processes are still
+    /// handled by the conditional write.
+    catalog_rmw: Arc<tokio::sync::Mutex<()>>,
 }
 
 impl ObjectStoreMetadataClient {
@@ -175,6 +182,7 @@ impl ObjectStoreMetadataClient {
             config,
             catalog_cache: Arc::new(tokio::sync::RwLock::new(None)),
             catalog_cache_ttl: Duration::from_secs(60),
+            catalog_rmw: Arc::new(tokio::sync::Mutex::new(())),
         }
     }
 
@@ -799,6 +807,7 @@ impl ObjectStoreMetadataClient {
             shard_id: None,
         };
 
+        let _rmw = self.catalog_rmw.lock().await;
         let catalog = cas_retry!({
             let (mut catalog, etag) = self.load_catalog_with_etag().await?;
             catalog.chunks.insert(path.to_string(), extended.clone());
@@ -1149,6 +1158,7 @@ impl MetadataClient for ObjectStoreMetadataClient {
     }
 
     async fn delete_chunk(&self, path: &str) -> Result<()> {
+        let _rmw = self.catalog_rmw.lock().await;
         let catalog = cas_retry!({
             let (mut catalog, etag) = self.load_catalog_with_etag().await?;
             catalog.chunks.remove(path);
@@ -1284,6 +1294,7 @@ impl MetadataClient for ObjectStoreMetadataClient {
         source_chunks: &[String],
         target_chunk: &str,
     ) -> Result<()> {
+        let _rmw = self.catalog_rmw.lock().await;
         let catalog = cas_retry!({
             let (mut catalog, etag) = self.load_catalog_with_etag().await?;
 
@@ -1342,6 +1353,7 @@ impl MetadataClient for ObjectStoreMetadataClient {
         target: &ChunkMetadata,
     ) -> Result<()> {
         // One conditional write: the target appears and the sources disappear together
+        let _rmw = self.catalog_rmw.lock().await;
         let catalog = cas_retry!({
             let (mut catalog, etag) = self.load_catalog_with_etag().await?;
 
